@@ -70,7 +70,7 @@ manifest = dict(
     hooks=dict(guard="cargo feature `verif-hooks` of penguin-mux (the hook module is additionally gated by cfg(all(test, loom)))",
                enable="RUSTFLAGS='--cfg loom' cargo test -p penguin-mux --lib --features verif-hooks verif_wake (done by tools/fam_wake.py for C12, and by the C03 check, which validates the same loom executions for credit conservation); no other check needs a hook",
                baseline_off_cmd="cd /repo && cargo test --workspace --no-fail-fast --offline",
-               source_commits=["8337027", "de00901"], add_only=True),
+               source_commits=["8337027", "de00901", "9b35bf0"], add_only=True),
     engines=[
         dict(name="mux", path="tools/families.py", serves_properties=sorted(k for k, v in CLAIMED.items() if v["engine"] == "mux"),
              kind_free_text="TLC model checking of spec/MC_*.cfg + simulator (harness/src/bin/mux_sim.rs) + TLC trace validation (spec/MuxTrace.tla)"),
